@@ -432,6 +432,12 @@ def syn_families() -> dict[str, dict]:
                       "stages": [S("A"), S("B", ["A"], tasks=[["jump:A", "ok"]]),
                                  S("P", ["A"], before=[S("P.b0", tasks=[["ok"], ["ok"]]), S("P.b1")], after=[S("P.a0"), S("P.a1", chain=True)]),
                                  S("K", ["P"])]}
+    # a parent with SEVERAL tasks and several parallel before / after stages: one ContinueParentStage arrives per child, the
+    # late ones while the parent's first task is already running or done
+    f["syn_par_before_multitask"] = {"stages": [S("A", tasks=[["run", "ok"], ["ok"], ["ok:k1=1"]],
+                                                  before=[S("A.b0"), S("A.b1", tasks=[["run", "ok"]]), S("A.b2")],
+                                                  after=[S("A.a0"), S("A.a1", tasks=[["run", "ok"]])]),
+                                                S("B", ["A"])]}
     f["syn_multitask_child"] = {"stages": [S("A", tasks=[["ok"], ["ok"]], before=[S("A.b0", tasks=[["ok:k1=1"], ["run", "ok"]])],
                                            after=[S("A.a0", tasks=[["trans", "ok"]])])]}
     return f
